@@ -168,6 +168,11 @@ def foreign_layouts(sc, rep, rng, tier, windowed=False):
             f.write(data)
         r0 = common.run_s4(["--color", "never", name], cwd=d, trace=True, timeout=60)
         ins = [(e["fo"], e["ts"], e["tu"]) for e in r0.trace if e["ev"] == "FsInsert"]
+        # the shipped sample as it is: every record the reader takes up is printed, once
+        np0 = sum(1 for e in r0.trace if e["ev"] == "Print")
+        if not r0.crashed and ins and np0 != len(ins):
+            rep.violation("foreign:sample", "%s as shipped: %d records taken up by the reader, %d printed" % (rel, len(ins), np0),
+                          {"kind": "foreign", "sample": rel, "records": len(ins), "printed": np0})
         if r0.crashed or len(ins) < 3 or len({t for _, t, _ in ins}) < 2:
             continue
         recsz = 0
@@ -196,7 +201,12 @@ def foreign_layouts(sc, rep, rng, tier, windowed=False):
         with open(os.path.join(d, name), "wb") as f:
             f.write(b"".join(bytes(r_) for r_ in recs))
         rc_ = common.run_s4(["--color", "never", name], cwd=d, trace=True, timeout=60)
-        if rc_.crashed or sum(1 for e in rc_.trace if e["ev"] == "Print") != k:
+        npc = sum(1 for e in rc_.trace if e["ev"] == "Print")
+        nic = sum(1 for e in rc_.trace if e["ev"] == "FsInsert")
+        if not rc_.crashed and nic == k and npc != k:
+            rep.violation("foreign:sample", "%s, its first %d records: all taken up by the reader, %d printed" % (rel, k, npc),
+                          {"kind": "foreign", "sample": rel, "records": k, "printed": npc})
+        if rc_.crashed or npc != k:
             continue
         for r_, s_, u_ in zip(recs, secs, usecs):
             r_[o_s:o_s + 4] = (s_ & 0xFFFFFFFF).to_bytes(4, "little")
